@@ -281,7 +281,13 @@ func (e *Expr) render(st Style, pp int, right bool) string {
 		s := e.A[0].render(st, 3, false) + " " + kw("in") + " (" + strings.Join(items, ", ") + ")"
 		return wrap(s, 3)
 	case "inx":
-		s := e.A[0].render(st, 3, false) + " " + kw("in") + " " + e.A[1].render(st, 3, true)
+		l := e.A[0].render(st, 3, false)
+		rst := st
+		if st.ctr != nil && st.Extra > 0 && *st.ctr+1 == st.Extra {
+			// (a pair of parentheses around the right side would turn it into a one-item list)
+			rst.Extra = 0
+		}
+		s := l + " " + kw("in") + " " + e.A[1].render(rst, 3, true)
 		return wrap(s, 3)
 	case "btw":
 		// bounds are parsed at precedence > comparison level
